@@ -8,7 +8,7 @@
 (*    harness replays each into the real code.                              *)
 (* `path` is a history variable and is hidden from fingerprints by VIEW.    *)
 (***************************************************************************)
-EXTENDS Wire
+EXTENDS Wire, MoveGenSys
 
 ROOTS == JsonDeserialize(IOEnv.VERIF_ROOTS)     \* sequence of [name, tags, fen, pos]
 Depth == atoi(IOEnv.VERIF_DEPTH)
@@ -40,6 +40,10 @@ FenInjectiveHere == TRUE
 \* ---- behaviour generation
 Emit == PrintT(<<"POS", ToJson([root |-> root, name |-> ROOTS[root].name, path |-> path, exp |-> Expect(pos)])>>)
 EmitInv == Emit
+\* the same line with the layer-S entry list (conformance of MoveGenSys to the code: drift only)
+SysEntriesJson == LET es == SysEntries(pos) IN [i \in 1..Len(es) |-> <<es[i][1], SortedSeq(es[i][2]), es[i][3]>>]
+EmitSysInv == PrintT(<<"POS", ToJson([root |-> root, name |-> ROOTS[root].name, path |-> path, exp |-> Expect(pos),
+                                        sys_entries |-> SysEntriesJson])>>)
 \* for the search properties: the position, its colour mirror, its mate-in-one moves
 NoPromoAtRoot == \A m \in Legal(pos) : m.promo = ""
 EmitSearch == PrintT(<<"SPOS", ToJson([fen |-> ToFEN(pos), mirror |-> ToFEN(Mirror(pos)),
